@@ -11,7 +11,9 @@ Tie:    the SAME generated valid programs as the other checks, run against the l
 import collections
 import os
 
+import ctxcorr
 import evcorr
+import gen_ctxasm
 import gen_orders
 import gen_sim
 import hhcorr
@@ -51,7 +53,32 @@ def run(chk):
     for lines, d in bad2[:1]:
         chk.violation("event kernel under sanitizers: %s" % (d.get("impl_err", "")[-300:] or d.get("impl")),
                       "\n".join(lines) + "\n# stderr: " + d.get("impl_err", "")[-1500:].replace("\n", "\n# "), d.get("impl_rc", 0) != 0)
-    chk.cov["evaluations"] += len(stats) + len(st2) + n_extra
+    # coroutine layer under sanitizers: initial frames for stack sizes that are / are not multiples of 16, first entry and return,
+    # and generated start/yield/resume/transfer/exit/stop scripts (the C03 harness, here only "does it run clean")
+    n_ctx = 0
+    try:
+        gen_ctxasm.run(san)
+        if vlib.lake_build(["ctxmain"])[0]:
+            lean_ctx = vlib.lean_exe("ctxmain")
+            c_ctx = ctxcorr.build_harness(san)
+            n, problems, _ = ctxcorr.frame_check(c_ctx, lean_ctx)
+            n_ctx += n
+            n2, problems2, _ = ctxcorr.entry_check(c_ctx, lean_ctx)
+            n_ctx += n2
+            bad_ctx = [p for p in problems + problems2 if "failed rc" in p or "ERROR" in p or "runtime error" in p or "stack_base" in p]
+            if bad_ctx:
+                chk.violation("coroutine set-up / first entry under sanitizers: %s" % bad_ctx[0][-400:],
+                              "kind: frame\n# " + "\n# ".join(bad_ctx[:6]) + "\n", True)
+            st3, bad3 = ctxcorr.run_generated(chk.seed + 29, 320 if quick else 3200, 120, c_ctx, lean_ctx)
+            n_ctx += len(st3)
+            for lines, d in bad3[:1]:
+                if d.get("impl_rc", 0) != 0:
+                    chk.violation("coroutine scripts under sanitizers: %s" % d.get("impl_err", "")[-300:],
+                                  "kind: script\n" + "\n".join(lines) + "\n# stderr: " + d.get("impl_err", "")[-1500:].replace("\n", "\n# "), True)
+    except (vlib.ImplBuildError, ImportError, AttributeError, gen_ctxasm.Untranslatable) as ex:
+        chk.notes.append("coroutine harness not run under sanitizers: %s" % str(ex)[:200])
+    chk.cov["input_distribution"]["coroutine_frames_entries_scripts"] = n_ctx
+    chk.cov["evaluations"] += len(stats) + len(st2) + n_extra + n_ctx
     chk.cov["traces_validated_against_impl"] += len(stats) + len(st2) + n_extra - len(bad) - len(bad2)
     chk.cov["input_distribution"]["hashheap_sequences"] = len(stats)
     chk.cov["input_distribution"]["hashheap_growth_steps"] = sum(s["growths"] for s in stats)
